@@ -8,7 +8,7 @@ pub fn def() -> PropDef {
     PropDef {
         id: "C16",
         builds: BOTH,
-        rule: "every paragraph of 1..=k words from the C15 vocabulary x o1 (widths 0..=12 x 16 indent pairs x algorithms x LF/CRLF x trailing ending yes/no; space-only breaking) restricted to filled forms with >= 2 lines x o2 (widths {0,3,5,8,20} x LF/CRLF x algorithms, space-only breaking, plus default Options at each width); refill(fill(t,o1)[+e1], o2) == fill(t, o2 with o1's indents)[+e2]; non-trivial = every evaluated case (a filled form with >= 2 lines)",
+        rule: "every paragraph of 1..=k words from the C15 vocabulary x o1 (widths 0..=12 x 9 indent pairs x algorithms x LF/CRLF x trailing ending yes/no; space-only breaking) restricted to filled forms with >= 2 lines x o2 (widths {0,3,5,8,20, widest line of the filled input and its neighbours} x LF/CRLF x algorithms, space-only breaking, plus default Options at each width); refill(fill(t,o1)[+e1], o2) == fill(t, o2 with o1's indents)[+e2]; non-trivial = every evaluated case (a filled form with >= 2 lines)",
         assumptions: BASE_ASSUMPTIONS,
         floor: |t| t.pick(100_000, 1_000_000),
         run,
@@ -18,7 +18,7 @@ pub fn def() -> PropDef {
 fn run(r: &mut Run) -> Result<(), MachineryError> {
     let t = r.tier;
     let k = t.pick(3, 4);
-    let indents: &[&str] = &["", "> ", "  ", "* "];
+    let indents: &[&str] = &["", "> ", "* "];
     let space = Space { name: "C16/refill".into(), menu: VOCAB.iter().map(|s| s.to_string()).collect(), max_len: k, desc: format!("paragraphs of 1..={} words x o1 x o2 as in the rule; indents {:?}", k, indents) };
     r.space(space, |seq, cx| {
         if seq.is_empty() {
@@ -44,7 +44,15 @@ fn run(r: &mut Run) -> Result<(), MachineryError> {
                                 if trailing {
                                     filled.push_str(le1.as_str());
                                 }
-                                for w2 in [0usize, 3, 5, 8, 20] {
+                                // o2 widths: fixed ones plus the boundary "widest line of the filled input" +-1
+                                let widest = filled0.split(le1.as_str()).map(ref_width).max().unwrap_or(0);
+                                let mut w2s = vec![0usize, 3, 5, 8, 20, widest, widest + 1];
+                                if widest > 0 {
+                                    w2s.push(widest - 1);
+                                }
+                                w2s.sort();
+                                w2s.dedup();
+                                for w2 in w2s {
                                     for le2 in [LineEnding::LF, LineEnding::CRLF] {
                                         let mut o2s: Vec<(String, Options<'static>)> = algs().into_iter().map(|(n, a)| (format!("space-only {}", n), space_only_options(w2, a, le2, "", ""))).collect();
                                         o2s.push(("Options::new defaults".to_string(), Options::new(w2).line_ending(le2)));
